@@ -24,4 +24,3 @@ func verifLongFrame(n int, nonzero bool) []byte {
 	}
 	return f
 }
-
